@@ -1351,6 +1351,12 @@ def _tanh(a, out=None):
     return _out(map1(f, _obj(a)), out, "tanh")
 
 
+@H("relu")
+def _relu(a, inplace=False):
+    r = map1(lambda x: (x + alg.absval(x)) / 2, _obj(a))
+    return _assign(a, r, "relu") if inplace else _new(r)
+
+
 @H("log1p")
 def _log1p(a, out=None):
     return _out(map1(lambda x: alg.log(alg.ONE + x), _obj(a)), out, "log1p")
